@@ -122,6 +122,7 @@ class Spec:
     doc: str = ""
     domain: Optional[Callable] = None   # rng -> list of flat input vectors (numpy) for the tie
     series: Optional[Tuple[str, str]] = None   # (table, key): this spec IS a SERIES entry
+    cuts: Sequence[str] = ()   # names of outputs that are cut points for the other outputs ("peeling")
 
 
 def dyadic(x: float) -> Tuple[int, int]:
@@ -214,6 +215,8 @@ def extract(spec: Spec) -> dict:
     }
     if spec.series:
         ir["series"] = list(spec.series)
+    if spec.cuts:
+        ir["cuts"] = list(spec.cuts)
     # input nz -> (row, col): inputs are dense symbols, column-major
     return ir
 
@@ -272,15 +275,16 @@ def _slice(nodes, roots):
     return sorted(need)   # SSA order of _walk is NOT topological for call nodes -> fix below
 
 
-def _topo(nodes, roots):
+def _topo(nodes, roots, stop=()):
     order, seen = [], set()
     sys.setrecursionlimit(100000)
     def visit(n):
         if n in seen:
             return
         seen.add(n)
-        for a in nodes[n].get("args", []):
-            visit(a)
+        if n not in stop:
+            for a in nodes[n].get("args", []):
+                visit(a)
         order.append(n)
     for r in roots:
         visit(r)
@@ -317,6 +321,37 @@ def elem_name(out, i, j) -> str:
     return "%s_%d_%d" % (out["name"], i, j)
 
 
+def cut_binders(ir):
+    """(node id -> binder name, binder text) for the cut outputs of `ir`"""
+    cutmap, names = {}, []
+    for out in ir["outputs"]:
+        if out["name"] not in ir.get("cuts", []):
+            continue
+        r, c = out["shape"]
+        for j in range(c):
+            for i in range(r):
+                nm = "c_" + elem_name(out, i, j)
+                names.append(nm)
+                n = out["elems"][i][j]
+                if n is not None and ir["nodes"][n]["op"] not in ("const", "input") and n not in cutmap:
+                    cutmap[n] = nm
+    return cutmap, "(%s : α)" % " ".join(names)
+
+
+def cut_args(ir) -> str:
+    """the cut outputs applied to the function's own arguments, in binder order"""
+    a = argnames(ir)
+    xs = []
+    for out in ir["outputs"]:
+        if out["name"] not in ir.get("cuts", []):
+            continue
+        r, c = out["shape"]
+        for j in range(c):
+            for i in range(r):
+                xs.append("(%s %s)" % (elem_name(out, i, j), a))
+    return " ".join(xs)
+
+
 def emit_function(ir) -> str:
     """Lean text for one function (core Lean only)."""
     L = []
@@ -337,6 +372,26 @@ def emit_function(ir) -> str:
                         continue
                     for n in _topo(ir["nodes"], [root]):
                         L.append("  let t%d : α := %s" % (n, node_rhs(ir, n)))
+                    L.append("  t%d" % root)
+    # peeled versions: outputs named in `cuts` become extra scalar arguments of the others
+    if ir["scalar"] and ir.get("cuts"):
+        cutmap, cb = cut_binders(ir)
+        for out in ir["outputs"]:
+            if out["name"] in ir["cuts"]:
+                continue
+            r, c = out["shape"]
+            for j in range(c):
+                for i in range(r):
+                    root = out["elems"][i][j]
+                    L.append("@[cas_defs] def %s_cut {α : Type} [CasNum α] %s %s : α :=" % (elem_name(out, i, j), b, cb))
+                    if root is None:
+                        L.append("  CasNum.ofInt 0")
+                        continue
+                    for n in _topo(ir["nodes"], [root], stop=cutmap):
+                        if n in cutmap:
+                            L.append("  let t%d : α := %s" % (n, cutmap[n]))
+                        else:
+                            L.append("  let t%d : α := %s" % (n, node_rhs(ir, n)))
                     L.append("  t%d" % root)
     # `all`: every output element (column-major per output), one shared let-chain
     roots = []
@@ -419,6 +474,17 @@ def emit_wrappers(ir) -> str:
             rows = "; ".join(", ".join("%s %s" % (elem_name(out, i, j), a) for j in range(c)) for i in range(r))
             L.append("@[cas_defs] def %s_mat {α : Type} [CasNum α] %s : Matrix (Fin %d) (Fin %d) α :=\n  !![%s]" % (
                 nm, b, r, c, rows))
+    if ir.get("cuts"):
+        for out in ir["outputs"]:
+            if out["name"] in ir["cuts"]:
+                continue
+            r, c = out["shape"]
+            for j in range(c):
+                for i in range(r):
+                    en = elem_name(out, i, j)
+                    L.append("/-- peeling: `%s` is its cut version applied to the cut outputs (definitional) -/" % en)
+                    L.append("theorem %s_cut_eq {α : Type} [CasNum α] %s :\n    %s %s = %s_cut %s %s := rfl" % (
+                        en, b, en, a, en, a, cut_args(ir)))
     L.append("end %s" % ns)
     return "\n".join(L) + "\n"
 
